@@ -930,6 +930,7 @@ func runSQLCond(c *core.Ctx) {
 		col, arg string
 		block    *ssa.BasicBlock
 		pos      string
+		occ      an.Occ
 	}
 	var ins []in
 	an.Region(build, nil, func(o an.Occ) {
@@ -947,7 +948,7 @@ func runSQLCond(c *core.Ctx) {
 		if len(elems) == 1 {
 			arg = o.Path(elems[0])
 		}
-		ins = append(ins, in{col, arg, o.Block(), P.Pos(o.Site().Pos())})
+		ins = append(ins, in{col, arg, o.Block(), P.Pos(o.Site().Pos()), o})
 	})
 	c.CountSites(len(ins))
 	for _, row := range []struct{ field, col, via string }{
@@ -968,6 +969,24 @@ func runSQLCond(c *core.Ctx) {
 			for _, g := range an.Guards(build, x.block) {
 				if is, nn := nilTest(g.V, filt+"."+row.field); is && g.True == nn {
 					present = true
+				}
+			}
+			// … or behind the same test inside the helper that adds the condition (`if tags == nil { return b }`)
+			if inner := x.occ.In; len(x.occ.Chain) > 0 && inner.Parent() != build {
+				for _, g := range an.Guards(inner.Parent(), inner.Block()) {
+					b, isB := g.V.(*ssa.BinOp)
+					if !isB || (b.Op != token.EQL && b.Op != token.NEQ) {
+						continue
+					}
+					other := b.X
+					if an.IsNilConst(b.X) {
+						other = b.Y
+					} else if !an.IsNilConst(b.Y) {
+						continue
+					}
+					if x.occ.Path(other) == filt+"."+row.field && g.True == (b.Op == token.NEQ) {
+						present = true
+					}
 				}
 			}
 			// the operand is built from this field's elements (a slice filled in a loop over them, or the field itself)
